@@ -24,6 +24,7 @@ type c12Result struct {
 	Decoded     map[string]int64 `json:"reference_streams_decoded_by_format"`
 	Independent int64            `json:"streams_checked_with_independent_tools"`
 	MaxRatio    map[string]int   `json:"max_ratio_decoded_by_format"`
+	Variants    map[string]int64 `json:"stream_variants"`
 	Malformed   map[string]int64 `json:"malformed_by_format"`
 	MalRejected int64            `json:"malformed_rejected"`
 	MalAccepted int64            `json:"malformed_accepted_with_output"`
@@ -89,7 +90,7 @@ func c12Child(args []string) {
 	out, prog := args[2], args[3]
 	hx.QuietPikeLog("")
 	rnd := rand.New(rand.NewSource(seed))
-	res := &c12Result{Encoded: map[string]int64{}, Decoded: map[string]int64{}, MaxRatio: map[string]int{}, Malformed: map[string]int64{}}
+	res := &c12Result{Encoded: map[string]int64{}, Decoded: map[string]int64{}, MaxRatio: map[string]int{}, Malformed: map[string]int64{}, Variants: map[string]int64{}}
 	res.GoroutinesB = runtime.NumGoroutine()
 	pf, _ := os.OpenFile(prog, os.O_CREATE|os.O_RDWR, 0644)
 	idx := int64(0)
@@ -201,7 +202,15 @@ func c12Child(args []string) {
 						res.Independent++
 					}
 				}
-				cs := map[string]interface{}{"format": f, "len": n, "kind": kind, "stream_len": len(enc), "level": level}
+				variant := ""
+				if (f == "gzip" || f == "br" || f == "zst") && rnd.Intn(4) == 0 {
+					// the same data in a container written with other encoder settings (header fields, windows, chunked writes)
+					if o, d, ok := hx.EncodeVariant(f, x, level, rnd.Intn(1000)); ok {
+						enc, variant = o, d
+						res.Variants[d]++
+					}
+				}
+				cs := map[string]interface{}{"format": f, "len": n, "kind": kind, "stream_len": len(enc), "level": level, "variant": variant}
 				mark()
 				var dec []byte
 				var derr error
@@ -324,12 +333,12 @@ func c12Child(args []string) {
 }
 
 func c12(r *hx.Run) {
-	r.Rule = "child process per batch. (1) pike's Gzip/Brotli at levels -1..12, 99 and -7 on lengths {0..64, 2^7..2^20 +-1, random} x {random, text, runs, zeros}: decoded by pike's own and by the standard decoders (plus gzip -dc and python zlib on a sample); (2) valid streams of gzip (incl. multi-member), br, lz4 block, zst (incl. zstd CLI output), snz from self-checked reference encoders at random levels, up to 1 MiB and ratios > 200: pike's decoder must restore them exactly; (3) malformed streams (truncation incl. every offset of small streams, bit flips, header edits, random bytes, doubled streams) per decoder under a per-case watchdog: no panic, no hang. Non-trivial/distinct = (level,length,kind) / (format,kind,ratio class) / mutation class."
+	r.Rule = "child process per batch. (1) pike's Gzip/Brotli at levels -1..12, 99 and -7 on lengths {0..64, 2^7..2^20 +-1, random} x {random, text, runs, zeros}: decoded by pike's own and by the standard decoders (plus gzip -dc and python zlib on a sample); (2) valid streams of gzip (incl. multi-member), br, lz4 block, zst (incl. zstd CLI output), snz from self-checked reference encoders, one in four gzip/br/zst streams in a container written with other encoder settings (gzip FNAME/FCOMMENT/FEXTRA/MTIME, brotli windows 2^10..2^24 with flushes, zstd streaming encoder with declared windows 2^10..2^25 and chunked writes) at random levels, up to 1 MiB and ratios > 200: pike's decoder must restore them exactly; (3) malformed streams (truncation incl. every offset of small streams, bit flips, header edits, random bytes, doubled streams) per decoder under a per-case watchdog: no panic, no hang. Non-trivial/distinct = (level,length,kind) / (format,kind,ratio class) / mutation class."
 	r.Assume = []string{"a malformed stream that decodes to some bytes without error is accepted (the formats carry no mandatory checksum)", "br/lz4/zst/snz reference encoders are the libraries pike links; gzip and zstd additionally use independent tools", "zst cases are capped per child because every ZSTDDecode leaves 16 goroutines behind (information, outside the given properties)"}
 	exe, _ := os.Executable()
 	batches := r.Pick(1, 12)
 	scale := r.Pick(1, 4)
-	tot := &c12Result{Encoded: map[string]int64{}, Decoded: map[string]int64{}, MaxRatio: map[string]int{}, Malformed: map[string]int64{}}
+	tot := &c12Result{Encoded: map[string]int64{}, Decoded: map[string]int64{}, MaxRatio: map[string]int{}, Malformed: map[string]int64{}, Variants: map[string]int64{}}
 	for b := 0; b < batches && !r.TooMany(); b++ {
 		seed := r.Seed*100 + int64(b)
 		out := filepath.Join(r.Scratch, fmt.Sprintf("c12-%d.json", b))
@@ -370,6 +379,9 @@ func c12(r *hx.Run) {
 		for k, v := range res.Malformed {
 			tot.Malformed[k] += v
 		}
+		for k, v := range res.Variants {
+			tot.Variants[k] += v
+		}
 		for k, v := range res.MaxRatio {
 			if v > tot.MaxRatio[k] {
 				tot.MaxRatio[k] = v
@@ -403,6 +415,7 @@ func c12(r *hx.Run) {
 	r.Set("encoder_round_trips_by_format_level", tot.Encoded)
 	r.Set("reference_streams_decoded_by_format", tot.Decoded)
 	r.Set("max_ratio_decoded_by_format", tot.MaxRatio)
+	r.Set("valid_stream_container_variants_decoded", tot.Variants)
 	r.Set("malformed_by_format", tot.Malformed)
 	r.Add("malformed_rejected", tot.MalRejected)
 	r.Add("malformed_accepted_with_output", tot.MalAccepted)
